@@ -929,3 +929,281 @@ func ruleServerConstruction(p *Prog, r *Out) {
 		r.undecided("ReadPreface", "?", "no longer resolves")
 	}
 }
+
+func init() {
+	register(&Rule{
+		Name: "response-status-once", Props: []string{"C20", "C02"}, Engine: "AST", Floor: 2,
+		Doc: "the client's response header reader accepts :status at most once per response (a seen-marker is tested, rejecting, before the status is stored, and set with it) and a response whose header block carried no :status is failed (the marker is tested, negated and rejecting, where the block or the response ends); RFC 7540 s8.1.2.4",
+		Run: ruleResponseStatusOnce,
+	})
+}
+
+func ruleResponseStatusOnce(p *Prog, r *Out) {
+	fd := p.decl("(*Conn).readHeader")
+	if fd == nil {
+		r.undecided("(*Conn).readHeader", "?", "no longer resolves")
+		return
+	}
+	r.fn("(*Conn).readHeader", "(*Conn).readStream", "(*Conn).dispatch")
+	// the statement list that stores the status
+	var list []ast.Stmt
+	var store ast.Stmt
+	ast.Inspect(fd.Body, func(n ast.Node) bool {
+		b, ok := n.(*ast.BlockStmt)
+		if !ok {
+			return true
+		}
+		for _, s := range b.List {
+			if es, ok := s.(*ast.ExprStmt); ok {
+				if c, ok := es.X.(*ast.CallExpr); ok && strings.HasSuffix(p.calleeOf(c), ".SetStatusCode") {
+					list, store = b.List, s
+				}
+			}
+		}
+		return true
+	})
+	if store == nil {
+		r.bad("status stored", p.pos(fd.Pos()), "readHeader never stores the status code")
+		return
+	}
+	// a marker: tested (rejecting) before the store and set true in the same list
+	marker := ""
+	for _, s := range list {
+		if s == store {
+			break
+		}
+		if ifs, ok := s.(*ast.IfStmt); ok && isRejectingBody(p, ifs.Body) {
+			cond := ast.Unparen(ifs.Cond)
+			switch cond.(type) {
+			case *ast.Ident, *ast.SelectorExpr:
+				name := squash(p.text(cond))
+				if name != "regularSeen" {
+					for _, s2 := range list {
+						if as, ok := s2.(*ast.AssignStmt); ok && len(as.Lhs) == 1 && squash(p.text(as.Lhs[0])) == name && p.text(as.Rhs[0]) == "true" {
+							marker = name
+						}
+					}
+				}
+			}
+		}
+	}
+	r.check(marker != "", "duplicate :status rejected", p.pos(store.Pos()), "if seen { reject }; seen = true; SetStatusCode", "the response reader stores every :status it meets: a header block with two :status fields is accepted and the caller gets the last one, where RFC 7540 s8.1.2.4 allows exactly one and calls anything else malformed")
+	// presence: a rejecting test of the negated marker in the reader, readStream or dispatch
+	present := false
+	if marker != "" {
+		for _, fn := range []string{"(*Conn).readHeader", "(*Conn).readStream", "(*Conn).dispatch"} {
+			d := p.decl(fn)
+			if d == nil {
+				continue
+			}
+			ast.Inspect(d.Body, func(n ast.Node) bool {
+				if ifs, ok := n.(*ast.IfStmt); ok {
+					for _, a := range conjuncts(ifs.Cond, true) {
+						if !a.Val && squash(p.text(a.Cond)) == marker && (isRejectingBody(p, ifs.Body) || strings.Contains(p.text(ifs.Body), "finish(")) {
+							present = true
+						}
+					}
+				}
+				return true
+			})
+		}
+	}
+	r.check(present, ":status presence checked", p.pos(fd.Pos()), "if !seen { reject } at the end of the response's header block", "nothing fails a response whose header block carries no :status (an empty block, or regular fields only): the caller is handed fasthttp's default 200 for a response the server never gave a status, where RFC 7540 s8.1.2.4 makes it malformed")
+}
+
+func init() {
+	register(&Rule{
+		Name: "emitter-payloads", Props: []string{"C14", "C09", "C10", "C18", "C05"}, Engine: "AST", Floor: 11,
+		Doc: "every function that emits a control frame fills the payload from its arguments, attaches it to the frame header and queues the header: WINDOW_UPDATE carries the increment it was asked for, RST_STREAM and GOAWAY their code (GOAWAY also the stream and message), a PING answer has ACK set and echoes the received data, a SETTINGS acknowledgement has ACK set",
+		Run: ruleEmitterPayloads,
+	})
+	register(&Rule{
+		Name: "client-response-shape", Props: []string{"C02", "C20", "C07", "C14"}, Engine: "FDE", Floor: 8,
+		Doc: "the client's response path: DATA octets are appended to the response whenever the frame has any; the header reader walks the whole block, accepts :status exactly in 100..999 and stores it, marks regular fields as seen, stores content-length through its setter and every other field with AddBytesKV; a received SETTINGS frame is copied, and its INITIAL_WINDOW_SIZE (when present) is applied to the open streams",
+		Run: ruleClientResponseShape,
+	})
+}
+
+func ruleEmitterPayloads(p *Prog, r *Out) {
+	type need struct{ callee, arg string }
+	type em struct {
+		fn    string
+		needs []need
+		queue string // callee that sends the header
+	}
+	ems := []em{
+		{"(*serverConn).writeWindowUpdate", []need{{"(*WindowUpdate).SetIncrement", "inc"}, {"(*FrameHeader).SetBody", "wu"}}, "(*serverConn).write"},
+		{"(*serverConn).writeReset", []need{{"(*RstStream).SetCode", "code"}, {"(*FrameHeader).SetBody", "r"}}, "(*serverConn).write"},
+		{"(*serverConn).writeGoAway", []need{{"(*GoAway).SetStream", "strm"}, {"(*GoAway).SetCode", "code"}, {"(*GoAway).SetData", "[]byte(message)"}, {"(*FrameHeader).SetBody", "ga"}}, "(*serverConn).write"},
+		{"(*serverConn).handlePing", []need{{"(*Ping).SetAck", "true"}, {"(*Ping).SetData", "ping.Data()"}, {"(*FrameHeader).SetBody", "ack"}}, "(*serverConn).write"},
+		{"(*serverConn).writePing", []need{{"(*FrameHeader).SetBody", "ping"}}, "(*serverConn).write"},
+		{"(*Conn).updateWindow", []need{{"(*WindowUpdate).SetIncrement", "size"}, {"(*FrameHeader).SetBody", "wu"}}, "(*Conn).writeOut"},
+		{"(*Conn).cancelStream", []need{{"(*RstStream).SetCode", "code"}, {"(*FrameHeader).SetBody", "fr"}}, "(*Conn).writeOut"},
+		{"(*Conn).handlePing", []need{{"(*Ping).SetAck", "true"}, {"(*Ping).SetData", "ping.Data()"}, {"(*FrameHeader).SetBody", "ack"}}, "(*Conn).writeOut"},
+		{"(*Conn).handleSettings", []need{{"(*Settings).SetAck", "true"}, {"(*FrameHeader).SetBody", "stRes"}}, "(*Conn).writeOut"},
+		{"(*Conn).writePing", []need{{"(*FrameHeader).SetBody", "ping"}}, "(*FrameHeader).WriteTo"},
+	}
+	for _, e := range ems {
+		fd := p.decl(e.fn)
+		if fd == nil {
+			r.undecided(e.fn, "?", "no longer resolves")
+			continue
+		}
+		r.fn(e.fn)
+		got := map[string]bool{}
+		queued := false
+		// only statements at the top level of the function count: a conditional payload is not a payload
+		for _, s := range fd.Body.List {
+			var call *ast.CallExpr
+			switch x := s.(type) {
+			case *ast.ExprStmt:
+				call, _ = x.X.(*ast.CallExpr)
+			case *ast.AssignStmt:
+				if len(x.Rhs) == 1 {
+					call, _ = x.Rhs[0].(*ast.CallExpr)
+				}
+			}
+			if call == nil {
+				continue
+			}
+			name := p.calleeOf(call)
+			if name == e.queue {
+				queued = true
+			}
+			if len(call.Args) == 1 {
+				got[name+"|"+squash(p.text(call.Args[0]))] = true
+			}
+		}
+		var missing []string
+		for _, n := range e.needs {
+			if !got[n.callee+"|"+squash(n.arg)] {
+				missing = append(missing, n.callee[strings.LastIndex(n.callee, ".")+1:]+"("+n.arg+")")
+			}
+		}
+		r.check(len(missing) == 0 && queued, e.fn+" fills and queues its frame", p.pos(fd.Pos()), "payload set from the arguments, SetBody, queued", fmt.Sprintf("%s no longer performs %v (frame queued: %v): the frame goes out with a zero increment / code / without ACK / without its payload, or not at all", e.fn, missing, queued))
+	}
+	// server SETTINGS acknowledgement
+	if fd := p.decl("(*serverConn).handleSettings"); fd != nil {
+		ack := false
+		inspectCalls(fd.Body, func(c *ast.CallExpr) {
+			if p.calleeOf(c) == "(*Settings).SetAck" && p.text(c.Args[0]) == "true" {
+				ack = true
+			}
+		})
+		r.check(ack, "(*serverConn).handleSettings acknowledges with ACK set", p.pos(fd.Pos()), "SetAck(true)", "the server's reply to a SETTINGS frame no longer has ACK set: the peer reads it as a new, empty SETTINGS frame and acknowledges that instead")
+	}
+}
+
+func ruleClientResponseShape(p *Prog, r *Out) {
+	if fd := p.decl("(*Conn).readStream"); fd != nil {
+		r.fn("(*Conn).readStream", "(*Conn).readHeader", "(*Conn).handleSettings")
+		c := fdeCheck{p, r, p.pos(fd.Pos())}
+		var dataClause *ast.CaseClause
+		ast.Inspect(fd.Body, func(n ast.Node) bool {
+			if cc, ok := n.(*ast.CaseClause); ok && len(cc.List) == 1 && p.text(cc.List[0]) == "FrameData" {
+				dataClause = cc
+			}
+			return true
+		})
+		if dataClause == nil {
+			r.bad("DATA octets reach the response", c.pos, "readStream has no DATA clause")
+		} else {
+			okApp := false
+			for _, s := range dataClause.Body {
+				switch x := s.(type) {
+				case *ast.IfStmt:
+					app := false
+					inspectCalls(x.Body, func(cl *ast.CallExpr) {
+						if strings.HasSuffix(p.calleeOf(cl), ".AppendBody") && squash(p.text(cl.Args[0])) == "data.Data()" {
+							app = true
+						}
+					})
+					if app {
+						okApp = true
+						c.expr("DATA appended whenever the frame has octets", x.Cond, fdeDomain{[]string{"data.Len()"}, [][]int64{seq(0, 3)}}, nil, func(e fdeEnv) int64 { return b2i(e["data.Len()"] != 0) }, "data.Len() != 0", "a one-octet DATA frame is body too")
+					}
+				case *ast.ExprStmt:
+					if cl, ok := x.X.(*ast.CallExpr); ok && strings.HasSuffix(p.calleeOf(cl), ".AppendBody") && squash(p.text(cl.Args[0])) == "data.Data()" {
+						okApp = true
+						r.ok("DATA appended whenever the frame has octets", p.pos(x.Pos()), "unconditional append")
+					}
+				}
+			}
+			r.check(okApp, "DATA octets reach the response", p.pos(dataClause.Pos()), "res.AppendBody(data.Data())", "the DATA clause of the client's stream reader no longer appends the frame's octets to the response body")
+		}
+	} else {
+		r.undecided("(*Conn).readStream", "?", "no longer resolves")
+	}
+	if fd := p.decl("(*Conn).readHeader"); fd != nil {
+		c := fdeCheck{p, r, p.pos(fd.Pos())}
+		var loop *ast.ForStmt
+		for _, s := range fd.Body.List {
+			if fs, ok := s.(*ast.ForStmt); ok {
+				loop = fs
+			}
+		}
+		if loop == nil || loop.Cond == nil {
+			r.bad("header block is read to its end", c.pos, "readHeader has no decode loop")
+			return
+		}
+		c.expr("header block is read to its end", loop.Cond, fdeDomain{[]string{"len(b)"}, [][]int64{seq(0, 3)}}, nil, func(e fdeEnv) int64 { return b2i(e["len(b)"] > 0) }, "len(b) > 0", "the last field of a block may be a single octet (an indexed field)")
+		var statusIf *ast.IfStmt
+		stored, regular, cl, other := false, false, false, false
+		ast.Inspect(loop.Body, func(n ast.Node) bool {
+			switch x := n.(type) {
+			case *ast.IfStmt:
+				if isRejectingBody(p, x.Body) && strings.Contains(p.text(x.Body), "errInvalidStatus") {
+					statusIf = x
+				}
+			case *ast.CallExpr:
+				switch {
+				case strings.HasSuffix(p.calleeOf(x), ".SetStatusCode") && p.text(x.Args[0]) == "n":
+					stored = true
+				case strings.HasSuffix(p.calleeOf(x), ".SetContentLength") && p.text(x.Args[0]) == "n":
+					cl = true
+				case strings.HasSuffix(p.calleeOf(x), ".AddBytesKV") && squash(p.text(x.Args[0])) == "hf.KeyBytes()" && squash(p.text(x.Args[1])) == "hf.ValueBytes()":
+					other = true
+				}
+			}
+			return true
+		})
+		for _, s := range loop.Body.List {
+			if as, ok := s.(*ast.AssignStmt); ok && p.text(as.Lhs[0]) == "regularSeen" && p.text(as.Rhs[0]) == "true" {
+				regular = true
+			}
+		}
+		if statusIf != nil {
+			c.expr("status accepted exactly in 100..999", statusIf.Cond, fdeDomain{[]string{"err!=nil", "n"}, [][]int64{{0, 1}, {0, 7, 99, 100, 101, 200, 999, 1000, 12345}}}, nil, func(e fdeEnv) int64 {
+				return b2i(e["err!=nil"] != 0 || e["n"] < 100 || e["n"] > 999)
+			}, "err != nil || n < 100 || n > 999", "a :status is three digits; anything else is malformed, and every three-digit value is legal")
+		} else {
+			r.bad("status accepted exactly in 100..999", c.pos, "no rejecting status-range test in readHeader")
+		}
+		r.check(stored, "status reaches the response", c.pos, "res.SetStatusCode(n)", "the decoded :status is no longer stored in the response")
+		r.check(regular, "regular fields are marked as seen", c.pos, "regularSeen = true at the top level of the loop", "a regular field no longer marks the block as past its pseudo-headers: a :status after a regular field is accepted")
+		r.check(cl && other, "fields reach the response header", c.pos, "SetContentLength(n) / AddBytesKV(key, value)", "decoded fields no longer reach the response header (content-length through its setter, every other field through AddBytesKV)")
+	} else {
+		r.undecided("(*Conn).readHeader", "?", "no longer resolves")
+	}
+	if fd := p.decl("(*Conn).handleSettings"); fd != nil {
+		cp, win := false, false
+		for _, s := range fd.Body.List {
+			switch x := s.(type) {
+			case *ast.ExprStmt:
+				if cl, ok := x.X.(*ast.CallExpr); ok && p.calleeOf(cl) == "(*Settings).CopyTo" && squash(p.text(cl.Args[0])) == "&c.serverS" {
+					cp = true
+				}
+			case *ast.IfStmt:
+				if squash(p.text(x.Cond)) == "st.hasWindowSize" {
+					inspectCalls(x.Body, func(cl *ast.CallExpr) {
+						if p.calleeOf(cl) == "(*Conn).applyInitialWindow" && squash(p.text(cl.Args[0])) == "int32(st.MaxWindowSize())" {
+							win = true
+						}
+					})
+				}
+			}
+		}
+		r.check(cp, "client keeps the server's settings", p.pos(fd.Pos()), "st.CopyTo(&c.serverS)", "the client no longer copies a received SETTINGS frame into its record of the server's settings")
+		r.check(win, "INITIAL_WINDOW_SIZE change reaches the open streams", p.pos(fd.Pos()), "if st.hasWindowSize { applyInitialWindow(new) }", "a received SETTINGS_INITIAL_WINDOW_SIZE is no longer applied to the streams that are open (RFC 7540 s6.9.2): their send windows keep the old size, so the client stalls or overruns the server's window")
+	}
+}
